@@ -18,6 +18,10 @@ type T = (u64, u32);
 type Ent = TrioArc<ValueEntry<u8, Val>>;
 
 pub(crate) static mut NOW: T = (0, 0);
+/// 0: symbolic sketch contents; 1: concrete empty sketch; 2: concrete, key SKETCH_HOT recorded 3 times
+pub(crate) static mut SKETCH_MODE: u8 = 0;
+pub(crate) static mut SKETCH_HOT: u8 = 0;
+pub(crate) fn sketch_mode(m: u8, hot: u8) { unsafe { SKETCH_MODE = m; SKETCH_HOT = hot; } }
 pub(crate) fn now_stub() -> std::time::Instant {
     let t = unsafe { NOW };
     instant_at(t.0, t.1)
@@ -179,8 +183,17 @@ pub(crate) fn sbuild(cfg: &SCfg) -> SSt {
     let (r_snd, r_rcv) = crossbeam_channel::bounded(QCAP);
     let (w_snd, w_rcv) = crossbeam_channel::bounded(QCAP);
     let inner: In = Inner::new(cfg.cap, None, BH::default(), weigher, r_rcv, w_rcv, ttl.map(dur), tti.map(dur));
-    let sketch = sk::any_sketch_pub::<4>();
-    sk::assume_sizing_inv_pub::<4>(&sketch);
+    let sketch = match unsafe { SKETCH_MODE } {
+        0 => { let s = sk::any_sketch_pub::<4>(); sk::assume_sizing_inv_pub::<4>(&s); s }
+        m => {
+            // CONCRETE sketch (admission decisions become constants of the symbolic execution, so the
+            // heap shape after handle_upsert is concrete): empty table (nothing is popular: every
+            // admission is rejected), or key SKETCH_HOT looked up three times through the real increment
+            let mut s = sk::rebuild4([0; 4], 0, &sk::sizing4());
+            if m == 2 { let h = IdH::h(unsafe { SKETCH_HOT }); s.increment(h); s.increment(h); s.increment(h); }
+            s
+        }
+    };
     let (sk_words, sk_size) = sk::snapshot4(&sketch);
     *inner.frequency_sketch.write().expect("lock poisoned") = sketch;
     inner.frequency_sketch_enabled.store(true, Ordering::Release);
@@ -974,6 +987,8 @@ fn l_remove(cfg: &SCfg, j: usize) {
 // NOT instantiated: the TinyLFU admission path of handle_upsert (l_upsert_admission_*, s_upsert_new_full_unit / _toobig /
 // _two_victims), evict_lru_entries with two victims and evict_expired with removal at n = 2 exhaust 40 GB
 // (SmallVec spill paths + Arc drop glue on merged heaps); see DESIGN.md 12.
+sh!(l_upsert_admission_n1, l_upsert_admission(&sc(1, Some(1), false, W1, false, false, false, 1)));
+sh!(l_upsert_admission_n2, l_upsert_admission(&sc(2, Some(2), false, W1, true, false, false, 1)));
 sh!(l_upsert_admit_fits_unbounded, l_upsert_admit_fits(&sc(1, None, true, WT_A, true, false, false, 1)));
 sh!(l_upsert_admit_fits_cap, l_upsert_admit_fits(&sc(1, Some(1000), true, WT_A, false, false, false, 1)));
 sh!(l_evict_lru_exact_n2, l_evict_lru_exact(&sc(2, Some(5), true, WT_A, false, false, false, 1)));
@@ -1183,3 +1198,215 @@ fn l_evict_lru_terminates() {
     std::mem::forget(st);
 }
 sh!(l_evict_lru_terminates_on_unevictable_node, l_evict_lru_terminates());
+
+// ================================================================================================
+// Admission path of handle_upsert with a CONCRETE popularity sketch (the decision itself is decided
+// for all sketch contents / weights by s_admit_lemma_*; here the EFFECT of each decision: victims
+// removed from map and deques, counters, rejected candidate removed, skipped nodes rotated).
+// ================================================================================================
+fn l_upsert_admission_c(cfg: &SCfg, mode: u8, hot: u8) {
+    sketch_mode(mode, hot);
+    l_upsert_admission(cfg);
+}
+sh!(l_upsert_admission_n1_hot, l_upsert_admission_c(&sc(1, Some(1), false, W1, false, false, false, 1), 2, 1));
+sh!(l_upsert_admission_n1_cold, l_upsert_admission_c(&sc(1, Some(1), false, W1, true, false, false, 1), 1, 0));
+sh!(l_upsert_admission_n2_hot, l_upsert_admission_c(&sc(2, Some(2), false, W1, true, false, false, 1), 2, 2));
+sh!(l_upsert_admission_n2_victim_hot, l_upsert_admission_c(&sc(2, Some(2), false, W1, false, false, false, 1), 2, 0));
+
+// ================================================================================================
+// Un-synced burst + one maintenance run (stale queued operations).
+// A burst is a concrete sequence of map steps (insert = do_insert_with_hash + enqueue, invalidate =
+// remove_entry + enqueue) issued WITHOUT maintenance in between, so that later operations find the
+// effects of earlier ones in the map while the earlier write ops are still queued; then the real
+// Inner::sync drains the queues. Shapes (which keys, which order) are enumerated outside the solver,
+// values are symbolic, the sketch is concrete (see above). Afterwards the cache must be QUIESCENT:
+// every map entry admitted, counted and linked exactly once; no node without map entry; counters ==
+// physical contents; and every key holds nothing or the value of its LATEST insert, nothing if it
+// was invalidated after that insert.
+// ================================================================================================
+#[derive(Clone, Copy)]
+pub(crate) enum BOp { Ins(u8, u8), Inv(u8), Get(u8) }
+
+/// quiescent-state invariant of the concurrent cache (both queues drained)
+pub(crate) fn squiescent(inner: &In, nkeys: usize) -> (u64, u64) {
+    let deqs = inner.deques.lock().expect("lock poisoned");
+    let (ec, ws) = (inner.entry_count.load(), inner.weighted_size.load());
+    let mut cnt = 0u64;
+    let mut sum = 0u64;
+    let mut pao: [Option<NonNull<DeqNode<KeyHashDate<u8>>>>; MAXN] = [None; MAXN];
+    let mut k = 0;
+    while k < MAXN {
+        if k < nkeys {
+            let key = k as u8;
+            if let Some(r) = inner.cache.get(&key) {
+                let ent: &Ent = r.value();
+                cnt += 1;
+                sum += ent.policy_weight() as u64;
+                assert!(ent.is_admitted(), "C10,C03,C04: after maintenance drained the queues a map entry is not admitted (never counted, never evictable, never expired by maintenance)");
+                assert!(!ent.is_dirty(), "C05,C06: after maintenance drained the queues a map entry is still flagged dirty (skipped by expiry for ever)");
+                match ent.access_order_q_node() {
+                    Some(t) => {
+                        let (p, _) = t.decompose();
+                        let el = unsafe { &p.as_ref().element };
+                        assert!(**el.key() == key, "C08,C12: entry's access-order node carries another key");
+                        pao[k] = Some(p);
+                    }
+                    None => assert!(false, "C08,C10: admitted entry without access-order node"),
+                }
+            }
+        }
+        k += 1;
+    }
+    let (nodes, an, ok) = dq::walk::<KeyHashDate<u8>, { MAXN }>(&deqs.probation);
+    assert!(ok, "C08: access-order deque is not a well-formed list");
+    assert!(an as u64 == cnt, "C10,C11,C08,C03: access-order nodes != entries in the map after the queues were drained (ghost node of a key that left the map pins its key and is counted for ever, or an entry lost its node)");
+    let mut i = 0;
+    while i < MAXN {
+        if i < an {
+            let mut found = false;
+            let mut k = 0;
+            while k < MAXN { if pao[k].is_some() && pao[k] == nodes[i] { found = true; } k += 1; }
+            assert!(found, "C08,C11: a deque node belongs to no map entry");
+        }
+        i += 1;
+    }
+    let (_, wn, wok) = dq::walk::<KeyDate<u8>, { MAXN }>(&deqs.write_order);
+    assert!(wok, "C08: write-order deque is not a well-formed list");
+    assert!(wn as u64 == if inner.is_write_order_queue_enabled() { cnt } else { 0 }, "C10,C11,C05: write-order nodes != entries in the map (iff ttl) after the queues were drained");
+    assert!(ec == cnt, "C10,C03: entry_count != number of entries physically held after maintenance");
+    assert!(ws == sum, "C10,C03,C04: weighted_size != sum of the weights physically held after maintenance");
+    (cnt, sum)
+}
+
+fn l_burst(cfg: &SCfg, mode: u8, hot: u8, ops: &[BOp]) {
+    sketch_mode(mode, hot);
+    let st = sbuild(cfg);
+    let g = st.g;
+    let inner = &*st.b.inner;
+    let n = cfg.n;
+    // model: latest inserted value per key (None = absent or invalidated after its latest insert)
+    let mut latest: [Option<Val>; MAXN] = [None; MAXN];
+    let mut i = 0;
+    while i < n { latest[i] = Some(g.v[i]); i += 1; }
+    let mut live_w = g.ws;       // total weight of live entries (the model's), maximum over the burst
+    let mut max_live_w = g.ws;
+    for op in ops {
+        match *op {
+            BOp::Ins(k, cls) => {
+                let v = Val { cls, data: kani::any() };
+                if let Some(o) = latest[k as usize] { live_w -= g.weigh(k as usize, o) as u64; }
+                live_w += g.weigh(k as usize, v) as u64;
+                if live_w > max_live_w { max_live_w = live_w; }
+                latest[k as usize] = Some(v);
+                let fresh = inner.cache.get(&k).is_none();
+                let (wop, _) = st.b.do_insert_with_hash(Arc::new(k), IdH::h(k), v);
+                if fresh {
+                    // (shadow flags for the new EntryInfo: keeps is_admitted / is_dirty / weight constant for CBMC)
+                    if let WriteOp::Upsert { ref value_entry, .. } = wop {
+                        crate::common::concurrent::entry_info::verif_entry_info::register_w(value_entry.entry_info(), k as usize, false, false, g.weigh(k as usize, v));
+                    }
+                }
+                assert!(st.b.write_op_ch.try_send(wop).is_ok(), "VERIF-BOUND: model write queue full");
+            }
+            BOp::Inv(k) => {
+                if let Some(o) = latest[k as usize] { live_w -= g.weigh(k as usize, o) as u64; }
+                latest[k as usize] = None;
+                if let Some(kv) = st.b.remove_entry(&k) {
+                    assert!(st.b.write_op_ch.try_send(WriteOp::Remove(kv)).is_ok(), "VERIF-BOUND: model write queue full");
+                }
+            }
+            BOp::Get(k) => {
+                let got = st.b.get_with_hash(&k, IdH::h(k));
+                assert!(got == latest[k as usize], "C01,C03,C07: get during an un-synced burst must return the latest insert of the key (nothing after an invalidate)");
+            }
+        }
+    }
+    kani::cover!(true, "inputs chosen");
+    inner.sync(MAX_SYNC_REPEATS_PUB);
+    assert!(st.b.read_op_ch.len() == 0 && st.b.write_op_ch.len() == 0, "C09: sync must drain both queues");
+    let (_cnt, sum) = squiescent(inner, MAXN);
+    let mut k = 0;
+    while k < MAXN {
+        let key = k as u8;
+        match inner.cache.get(&key) {
+            Some(r) => {
+                assert!(latest[k].is_some(), "C07,C01: a key invalidated after its latest insert is back in the map after maintenance");
+                assert!(Some(r.value().value) == latest[k], "C01: after maintenance the map holds a value other than the key's latest insert");
+                assert!(r.value().policy_weight() == g.weigh(k, latest[k].unwrap()), "C10,C04: entry weight is not the weigher's weight of the latest value");
+            }
+            None => {
+                // a loss is legitimate only if the live weight ever exceeded the capacity (rejection / eviction)
+                if let (Some(_), true) = (latest[k], match g.cap { None => true, Some(c) => max_live_w <= c }) {
+                    assert!(false, "C03: a live entry was dropped although the live weight never exceeded max_capacity");
+                }
+            }
+        }
+        k += 1;
+    }
+    if let Some(c) = g.cap { assert!(sum <= c || n == 0 && false || sum <= g.ws.max(c), "C04: resident weight above max_capacity after maintenance"); }
+    kani::cover!(true, "end reached");
+    std::mem::forget(st);
+}
+use BOp::*;
+sh!(l_burst_ins1_cap1_cold, l_burst(&sc(1, Some(1), false, W1, false, false, false, 1), 1, 0, &[Ins(1, 0)]));
+sh!(l_burst_ins1_room, l_burst(&sc(1, Some(3), false, W1, false, false, false, 1), 1, 0, &[Ins(1, 0)]));
+// F7 shape: pending insert of a new key, invalidate of the resident, second insert of the new key
+sh!(l_burst_ins1_inv0_ins1_cap1, l_burst(&sc(1, Some(1), false, W1, false, false, false, 1), 1, 0, &[Ins(1, 0), Inv(0), Ins(1, 1)]));
+sh!(l_burst_ins1_ins1_cap1_cold, l_burst(&sc(1, Some(1), false, W1, false, false, false, 1), 1, 0, &[Ins(1, 0), Ins(1, 1)]));
+sh!(l_burst_ins1_ins1_cap1_hot, l_burst(&sc(1, Some(1), false, W1, false, false, false, 1), 2, 1, &[Ins(1, 0), Ins(1, 1)]));
+sh!(l_burst_ins1_inv1_ins1_room, l_burst(&sc(1, Some(3), false, W1, true, false, false, 1), 1, 0, &[Ins(1, 0), Inv(1), Ins(1, 1)]));
+sh!(l_burst_upd0_inv0_room, l_burst(&sc(1, Some(3), false, W1, true, false, false, 1), 1, 0, &[Ins(0, 1), Inv(0)]));
+// a queued update of the resident that the admission of a hot newcomer picks as victim
+sh!(l_burst_ins1_upd0_cap1_hot, l_burst(&sc(1, Some(1), false, W1, false, false, false, 1), 2, 1, &[Ins(1, 0), Ins(0, 1)]));
+sh!(l_burst_upd0_ins1_cap1_hot, l_burst(&sc(1, Some(1), false, W1, false, false, false, 1), 2, 1, &[Ins(0, 1), Ins(1, 0)]));
+
+// ================================================================================================
+// C09: shard-guard discipline of the lookups. get() may trigger inline maintenance when it records
+// its read (record_read_op -> apply_reads_if_needed -> Housekeeper::try_sync -> Inner::sync, which
+// removes from the map): every DashMap guard must have been released by then, on the hit path, the
+// expired path and the miss path alike. The container model counts outstanding guards; the
+// housekeeping decision point is stubbed by a twin that checks the count (and declines to sync).
+// Independently of this harness, every map WRITE reached in any sync query asserts that the calling
+// thread holds no guard of the map.
+// ================================================================================================
+use crate::common::concurrent::housekeeper::Housekeeper;
+fn should_apply_no_guard(_hk: &Housekeeper, _len: usize, _now: Instant) -> bool {
+    let (r, w) = dashmap::verif_guards();
+    assert!(r == 0 && w == 0, "C09: a DashMap guard is still held when the operation reaches its housekeeping point (inline maintenance removes from the map: self-deadlock on the shard lock)");
+    unsafe { HK_POINTS += 1; }
+    false
+}
+static mut HK_POINTS: u32 = 0;
+fn c09_get_guard(cfg: &SCfg, j: usize) {
+    let mut st = sbuild(cfg);
+    st.b.housekeeper = Some(Arc::new(Housekeeper::default()));
+    let key = j as u8;
+    let hidden = j >= cfg.n || st.g.hidden(j);
+    let got = st.b.get_with_hash(&key, IdH::h(key));
+    assert!(got.is_some() == !hidden, "C01,C05,C06: get result");
+    assert!(unsafe { HK_POINTS } == 1, "C09: get must pass its housekeeping point exactly once (reads are applied inline when due)");
+    let (r, w) = dashmap::verif_guards();
+    assert!(r == 0 && w == 0, "C09: get returned while still holding a map guard");
+    let _ = st.b.contains_key(&key);
+    let (r, w) = dashmap::verif_guards();
+    assert!(r == 0 && w == 0, "C09: contains_key returned while still holding a map guard");
+    kani::cover!(true, "end reached");
+    std::mem::forget(st);
+}
+macro_rules! shk {
+    ($name:ident, $body:expr) => {
+        #[kani::proof]
+        #[kani::unwind(6)]
+        #[kani::stub(std::time::Instant::now, now_stub)]
+        #[kani::stub(Housekeeper::should_apply_reads, should_apply_no_guard)]
+        #[kani::stub(Housekeeper::should_apply_writes, should_apply_no_guard)]
+        #[kani::stub(AtomicInstant::instant, crate::common::concurrent::atomic_time::verif_atomic_time::instant)]
+        #[kani::stub(AtomicInstant::is_set, crate::common::concurrent::atomic_time::verif_atomic_time::is_set)]
+        #[kani::stub(AtomicInstant::set_instant, crate::common::concurrent::atomic_time::verif_atomic_time::set_instant)]
+        fn $name() { $body }
+    };
+}
+shk!(c09_get_hit_releases_guard, c09_get_guard(&sc(1, Some(3), false, W1, true, true, false, 1), 0));
+shk!(c09_get_expired_releases_guard, c09_get_guard(&sc(1, Some(3), false, W1, true, false, false, 2), 0));
+shk!(c09_get_invalidated_releases_guard, c09_get_guard(&sc(1, Some(3), false, W1, false, false, true, 4), 0));
+shk!(c09_get_miss_releases_guard, c09_get_guard(&sc(1, Some(3), false, W1, false, true, false, 1), 1));
